@@ -7,6 +7,7 @@
 World *g_world = nullptr;
 Arena &thread_arena() { static thread_local Arena *a = nullptr; if (!a) a = new Arena(); return *a; }
 BFail g_bfail;
+bool announce_ops = false;
 
 // ------------------------------------------------------------------ internal symbols (weak: a refactor must not break the link)
 extern "C" {
@@ -479,6 +480,7 @@ static void op_get(World &W, const Json &op) {
     Delivered D = deliver(W, o, s, op["dl"]);
     int num = (int) D.ptrs.size();
     int force = op["force"].in(0);
+    if (!D.sizes_sane) { W.probe("get.skipped-header-lies-about-sizes"); W.arena.release_all(); return; }
     char *out = nullptr; u64 outlen = 0;
     size_t live0 = own::live();
     W.cur_api = "decode";
@@ -509,7 +511,10 @@ static void op_get(World &W, const Json &op) {
                 if (rc > 0) W.viol("C02", "decode-positive-rc/" + who, "rc=" + std::to_string(rc));
             }
         } else {
-            judge_consume_errors(W, "decode", rc, D, num, s.cfg.k, o.flen);
+            // with forced checks a non-host-order fragment may equally be excluded as invalid (C20), so the exact
+            // bad-header code is demanded of decode only when the caller did not ask for that filtering
+            if (!force) judge_consume_errors(W, "decode", rc, D, num, s.cfg.k, o.flen);
+            else if (D.any_bad_consume && rc == 0 && !exact) W.viol("C09", "decode/bad-header-consumed", "forced-check decode consumed a fragment with an unacceptable header");
             if (!D.any_bad_consume && D.sizes_sane && s.cfg.ct == ref::CT_CRC32 && force && D.all_pristine_or_invalid) {
                 // C20: every delivered fragment is either a pristine member of this stripe or fails validation
                 bool tol = within_tolerance(s.cfg, D.pristine_mask);
@@ -541,6 +546,7 @@ static void op_repair(World &W, const Json &op) {
     Delivered D = deliver(W, o, s, op["dl"]);
     int num = (int) D.ptrs.size();
     int dest = op["dest"].in();
+    if (!D.sizes_sane) { W.probe("repair.skipped-header-lies-about-sizes"); W.arena.release_all(); return; }
     int al = op["oal"].in(0);
     u8 *outb = W.arena.place(nullptr, o.flen, al == 16 ? Arena::RIGHT : (al & 15), true);
     memset(outb, 0xEE, o.flen);
@@ -682,9 +688,14 @@ static void op_plan(World &W, const Json &op) {
             if (rr == 0) {
                 W.probe("plan.confirmed");
                 if (bytes_differ(outb, o.orig[r].data(), o.flen)) W.viol("C06 C19", "answer-reconstructs-wrong-fragment/" + who, "reconstructing " + std::to_string(r) + " from the returned set gives different bytes");
-            } else if (n - (int) ans.size() <= s.cfg.m) {
-                W.viol("C06 C19", "answer-not-usable/" + who, "reconstruct restricted to the returned set failed with " + std::to_string(rr));
-            } else W.probe("plan.confirm.frontend-refusal");
+            } else {
+                // reconstruct itself is only promised within the code's tolerance (C03): a refusal because the rest of
+                // the stripe is "missing" beyond that is not held against the planner; sufficiency is the span test above
+                u64 am = 0; for (int v : ans) am |= 1ULL << v;
+                if (within_tolerance(s.cfg, am))
+                    W.viol("C06 C19", "answer-not-usable/" + who, "reconstruct restricted to the returned set (erasures within tolerance) failed with " + std::to_string(rr));
+                else W.probe("plan.confirm.refused-beyond-tolerance");
+            }
         }
     }
     W.arena.release_all();
@@ -815,6 +826,7 @@ void exec_op(World &W, const Json &op, int index) {
     W.cur_op = index;
     W.cur_kind = op["op"].str();
     W.cur_api = "";
+    if (W.announce) { printf("AT op=%d kind=%s\n", index, W.cur_kind.c_str()); fflush(stdout); }
     W.steps++;
     W.trace.adds("op", W.cur_kind);
     const std::string &k = W.cur_kind;
@@ -832,6 +844,7 @@ void exec_op(World &W, const Json &op, int index) {
 
 Json run_plan(const Json &plan, bool verbose, std::vector<std::string> *log) {
     World W;
+    W.announce = announce_ops;
     if (verbose) W.trace.log = log;
     world_begin(W, plan);
     if (plan.has("threads")) run_threaded(W, plan);
